@@ -1,7 +1,7 @@
 /* Skip-list case kind of the container engine (C19).
- * ops:  i:K:P  x:K:P:S  f:K  fi la  nx:I pv:I v:I  fv lv len  c:I d:I  r:I:K  pf
- *   I = creation index of a node (k-th successful insert), S = allocation site (0 node,
- *   1 next array, 2 prev array) that is made to fail during this insert.
+ * ops:  i:K:P  !Si:K:P  f:K  fi la  nx:I pv:I v:I  fv lv len  c:I d:I  r:I:K  pf
+ *   I = creation index of a node (k-th successful insert), !S = the S-th allocation request of
+ *   this insert (0 node, 1 next array, 2 prev array) is refused (dsa_alloc_fail_at).
  * After every mutating op the forward (first/next) and backward (last/prev) traversals and
  * len are printed as [k:p,...|k:p,...|len].  The case ends with ares_slist_destroy and the
  * order in which the destructor saw the values (end=k:p,...).
@@ -39,25 +39,6 @@ void __wrap_ares_rand_bytes(ares_rand_state *state, unsigned char *buf, size_t l
       buf[i] = (unsigned char)(sl_rng_state >> 24);
     }
   }
-}
-
-/* ---- allocation failure injection (pass-through unless armed) ---- */
-static long sl_fail_at = -1; /* fail the allocation with this ordinal, counted from arming */
-static long sl_alloc_no = 0;
-
-static void *sl_malloc(size_t sz)
-{
-  if (sl_fail_at >= 0 && sl_alloc_no++ == sl_fail_at) return NULL;
-  return malloc(sz);
-}
-static void *sl_realloc(void *p, size_t sz)
-{
-  if (sl_fail_at >= 0 && sl_alloc_no++ == sl_fail_at) return NULL;
-  return realloc(p, sz);
-}
-static void sl_free(void *p)
-{
-  free(p);
 }
 
 /* ---- destructor log ---- */
@@ -145,7 +126,6 @@ static void sl_run_once(long k, const char *ops_in, int mode, unsigned long long
   sl_nnodes    = 0;
   sl_dlog_len  = 0;
   sl_dlog[0]   = 0;
-  sl_fail_at   = -1;
 
   rs = ares_init_rand_state();
   l  = ares_slist_create(rs, sl_cmp, sl_destruct);
@@ -160,17 +140,17 @@ static void sl_run_once(long k, const char *ops_in, int mode, unsigned long long
     unsigned long idx = 0;
     long          site = -1;
     int           mut  = 0;
-    if (sscanf(op, "i:%lld:%lld", &key, &p) == 2 || sscanf(op, "x:%lld:%lld:%ld", &key, &p, &site) == 3) {
+    if (sscanf(op, "i:%lld:%lld", &key, &p) == 2 ||
+        (sscanf(op, "!%ldi:%lld:%lld", &site, &key, &p) == 3 && site >= 0 && site <= 2)) {
       sl_elem           *e = malloc(sizeof(*e));
       ares_slist_node_t *n;
       e->key     = key;
       e->payload = p;
-      if (op[0] == 'x' && site >= 0 && site <= 2) {
-        sl_alloc_no = 0;
-        sl_fail_at  = site;
+      if (op[0] == '!') {
+        dsa_alloc_fail_at = site;
       }
-      n          = ares_slist_insert(l, e);
-      sl_fail_at = -1;
+      n                 = ares_slist_insert(l, e);
+      dsa_alloc_fail_at = -1;
       if (n == NULL) {
         free(e);
         printf(" N");
@@ -269,10 +249,6 @@ static void run_slist(long k, char *ops)
 {
   unsigned long long h = 1469598103934665603ULL;
   const char        *c;
-  /* (re)install the pass-through allocator wrappers; the matching cleanup only drops the
-   * init count, the wrappers stay installed and behave like the defaults unless armed */
-  ares_library_init_mem(ARES_LIB_INIT_ALL, sl_malloc, sl_free, sl_realloc);
-  ares_library_cleanup();
   for (c = ops; *c; c++) h = (h ^ (unsigned char)*c) * 1099511628211ULL;
   sl_run_once(k, ops, 0, 0x9E3779B97F4A7C15ULL);
   sl_run_once(k, ops, 0, h | 1);
